@@ -60,7 +60,7 @@ def run_one(m, worker):
         for pid in m["properties"]:
             p = subprocess.run([os.path.join(VERIF, "check"), pid, "--repo", dst, "--tier", "quick"],
                                stdout=subprocess.PIPE, stderr=subprocess.STDOUT, text=True,
-                               env=dict(os.environ, FPV_EVIDENCE_DIR=os.path.join(scratch, "ev"), FPV_WORKER=str(worker)))
+                               env=dict(os.environ, FPV_EVIDENCE_DIR=os.path.join(scratch, "ev"), FPV_WORKER=str(worker), FPV_EXTRACT_SLOTS=os.environ.get("FPV_EXTRACT_SLOTS", "8")))
             out = p.stdout
             fired = "VIOLATION property=%s" % pid in out
             rule_ok = True
